@@ -26,11 +26,11 @@ ASSUMPTIONS = ["pre-emption inside C code cannot occur under the GIL; hook point
 MIN_NONTRIVIAL = {"quick": 1500, "thorough": 20000}
 REQUIRED_COUNTERS = {"blocked_threads_checked": {"quick": 300, "thorough": 5000},
                      "blocked_inside_exit_method": {"quick": 50, "thorough": 800},
-                     "schedules": {"quick": 1500, "thorough": 20000},
-                     "schedules_target_moved": {"quick": 1000, "thorough": 15000},
+                     "schedules": {"quick": 1500, "thorough": 15000},
+                     "schedules_target_moved": {"quick": 1000, "thorough": 4000},
                      "retries_observed": {"quick": 20, "thorough": 200},
-                     "inspect_frame_snapshots_checked": {"quick": 20000, "thorough": 400000},
-                     "inspect_frame_snapshots_of_executing_frames": {"quick": 2000, "thorough": 40000},
+                     "inspect_frame_snapshots_checked": {"quick": 20000, "thorough": 120000},
+                     "inspect_frame_snapshots_of_executing_frames": {"quick": 2000, "thorough": 25000},
                      "rejections_observed": {"quick": 2, "thorough": 20},
                      "stress_extractions": {"quick": 800, "thorough": 20000},
                      "stress_distinct_positions": {"quick": 20, "thorough": 40}}
@@ -70,9 +70,16 @@ def plan(tier, seed):
 
 def classify_crash(spec, signum, tail):
     interp = spec.get("interp")
-    if interp in ("3.9", "3.10") and "_lowlevel_cpython_310" in tail:
+    if interp in ("3.9", "3.10") and spec.get("leg") == "stress" and "stackscope" in tail:
+        # F10: the 3.10 reader turns raw value-stack addresses of a *running* frame into object references
+        # without a consistency re-check.  Where the process then dies varies from run to run: inside the
+        # reader, in _contexts_active_by_trickery where the result is first touched, when those references
+        # are dropped on return, or later still - so on these interpreters a crash of the racing leg cannot
+        # be attributed to anything more specific than this mechanism (the racing leg runs there only as
+        # the thorough tier's short confirmation of F10; blocked and scheduled legs stay strict).
         return {"kind": "crash", "signal": signum, "mechanism": "py310-racing-reader", "interp": interp,
-                "detail": "worker killed by signal %d while the inspecting thread was inside the 3.10 frame reader" % signum}
+                "detail": "worker killed by signal %d while inspecting a racing thread through the 3.10 frame "
+                          "reader" % signum}
     if "stackscope" in tail:
         return {"kind": "crash", "signal": signum, "interp": interp,
                 "detail": "worker killed by signal %d with stackscope frames on a thread" % signum}
@@ -775,6 +782,9 @@ def stress_leg(spec, res):
     import stackscope
 
     interp = "%d.%d" % sys.version_info[:2]
+    # before 3.11 the frame reader has no consistency re-check at all (known finding F10): whatever a racing
+    # read produces there - crash, exception, torn snapshot - is that one mechanism
+    f10 = {"mechanism": "py310-racing-reader"} if sys.version_info < (3, 11) else {}
     stop = threading.Event()
     LINE_TAG = {}
 
@@ -853,7 +863,7 @@ def stress_leg(spec, res):
             res.evaluations += 1
             res.count("stress_extractions")
             if raised is not None:
-                res.violation(kind="extract raised while racing", error=repr(raised), interp=interp)
+                res.violation(kind="extract raised while racing", error=repr(raised), interp=interp, **f10)
                 continue
             iw = ctxmon.insp_warnings(w)
             if iw:
@@ -875,7 +885,7 @@ def stress_leg(spec, res):
                     if tags is not None and getattr(c.obj, "tag", None) not in tags:
                         res.violation(kind="torn snapshot: context object does not belong to the with on its line",
                                       line=c.start_line, tag=getattr(c.obj, "tag", repr(c.obj)), expected=tags,
-                                      frame=fr.funcname, interp=interp)
+                                      frame=fr.funcname, interp=interp, **f10)
                     elif tags is not None:
                         res.count("stress_contexts_tag_checked")
     finally:
